@@ -403,7 +403,7 @@ class SInt:
                 if _is_inf(o) or o != o:
                     return finf(o)
                 return _mk_bool(f(z3.ToReal(self.e), _realval(o)))
-            if type(o) is SReal:
+            if isinstance(o, SReal):
                 return _mk_bool(f(z3.ToReal(self.e), o.e))
             return NotImplemented
         return _mk_bool(f(self.e, oe))
@@ -507,7 +507,7 @@ class SReal:
     @staticmethod
     def lift(x):
         t = type(x)
-        if t is SReal:
+        if t is SReal or issubclass(t, SReal):
             return x.e
         if t is SInt:
             return z3.ToReal(x.e)
@@ -525,7 +525,13 @@ class SReal:
         oe = SReal.lift(o)
         if oe is None:
             if type(o) is float:
-                raise Unsupported("arithmetic between symbolic real and inf/nan")
+                if o != o:
+                    raise Unsupported("arithmetic between symbolic real and nan")
+                # finite (op) +-inf: only the sign pattern of +,- is needed
+                r = f(0.0, o)
+                if r == INF or r == -INF:
+                    return r
+                raise Unsupported("arithmetic between symbolic real and inf")
             return NotImplemented
         return SReal(f(self.e, oe))
 
@@ -676,7 +682,7 @@ def term(x):
     if isinstance(x, SBool):
         return x.e
     t = type(x)
-    if t is SInt or t is SReal:
+    if t is SInt or t is SReal or issubclass(t, SReal):
         return x.e
     if t is bool:
         return z3.BoolVal(x)
@@ -691,7 +697,7 @@ def term(x):
 
 def is_sym(x):
     t = type(x)
-    return t is SInt or t is SReal or t is SBool
+    return t is SInt or t is SReal or t is SBool or issubclass(t, SReal)
 
 
 def keys_guard(d):
